@@ -1464,7 +1464,7 @@ fn op_p(t: &str) -> String {
 }
 
 pub fn gen(ops: &mut Vec<String>, seed: u64, thorough: bool) {
-    let scale = if thorough { 12 } else { 1 };
+    let scale = if thorough { 30 } else { 1 };
     ops.push(op_p(MOCK));
     ops.push(op_p(&MOCK.replace('\n', "\r\n")));
     // (a) rendered descriptions: plain style first, then increasing lexical variation
